@@ -1,22 +1,21 @@
 /-
 C20 — property theorems.
 
-Full statement aimed at (kept here; NOT proven in full):
+Round 2: the full round trip is proven.
     theorem parse_print (a : Api) (h : WF a) : parse (print a) = some a
-  i.e. the parser reads back exactly the AST whose tokens the formatter wrote, for every statement kind.
-What is proven (`_partial` = the same statement restricted to a sub-grammar, nothing else weakened):
-  * `datatype_roundtrip`, `struct_fields_roundtrip` — full strength for every data type (base / any / interface{} /
-    pointer / slice / array / map / struct, nested to any depth) and every struct field list (named, several names,
-    embedded, embedded pointer, tags), at every sufficient fuel and in front of any continuation;
-  * `type_expr_roundtrip`, `type_decl_roundtrip_partial` — a `type Name [=] T` declaration through `parseStmt`;
-  * `norm_idempotent`, `format_idempotent_tokens` — what the formatter drops is dropped once: formatting the
-    formatted AST writes the same tokens (for every program, all statement kinds);
-  * `format_preserves_description`, `format_fixpoint` — for every program whose normal form round-trips
-    (`RoundTrips`), the formatted tokens parse to an AST with the same API description, and formatting that
-    again writes the same tokens.
-  Missing for the full statement: the round trip of info / import / syntax / service statements and of the
-  statement list (`RoundTrips (norm a)` for all well-formed `a`); these are checked on generated programs by the
-  driver (model parser = real parser on source and formatted text, model formatter = real formatter's tokens).
+  the parser reads back exactly the AST whose tokens the formatter wrote, for every statement kind
+  (`statement_roundtrip`; components: `datatype_roundtrip`, `struct_fields_roundtrip`, `type_expr_roundtrip`,
+  `path_roundtrip`, `service_items_roundtrip`, `atserver_value_roundtrip`), and with it
+    theorem format_correct (a : Api) (h : WF a) :
+      ∃ b, parse (format a) = some b ∧ sameDesc a b = true ∧ format b = format a ∧ WF b
+  formatting a well-formed program gives tokens that parse, to the same API description, and formatting the result
+  again writes the same tokens (`format_preserves_description_wf`, `format_fixpoint_wf`: the `RoundTrips` hypothesis of
+  round 1 is discharged by `parse_print` and `norm_wf`).
+  * `norm_idempotent`, `format_idempotent_tokens` — what the formatter drops is dropped once (every program).
+  * `WF` (every statement is one the parser can produce) is decidable; `format_correct_checked` is the form the driver
+    uses: it evaluates `wfApiB` on every AST the model parser builds.
+  Still missing for a hypothesis-free statement: `parse ts = some a → WF a` (inversion of the parser functions); and
+  everything about layout (comments, alignment, textual idempotence) is tested by the driver, not proven.
 -/
 import GoZero.C20.WfDec
 namespace GoZero.C20
